@@ -120,11 +120,21 @@ def run1 (c : Case) : CaseResult := Id.run do
           let implCostLo := implLo + penalty * (nb : Nat)
           let implCostHi := implHi + penalty * (nb : Nat)
           if implCostLo > witCostHi + tol then
-            fails := (0, .specfail s!"not-minimal conn {id} (penalty {dec penalty}): route cost length+penalty·bends ≥ {dec implCostLo} ({nb} bends) but a certified obstacle-free path of cost ≤ {dec witCostHi} ({bends witPts} bends) exists") :: fails
+            -- in the aligned-sides class the optimum is the taut route along the common side line, which
+            -- libavoid finds; the message prefix keeps that class out of the known "not-minimal" finding
+            let pre := if c.tag.startsWith "aligned-sides" then "aligned-not-minimal" else "not-minimal"
+            fails := (0, .specfail s!"{pre} conn {id} (penalty {dec penalty}): route cost length+penalty·bends ≥ {dec implCostLo} ({nb} bends) but a certified obstacle-free path of cost ≤ {dec witCostHi} ({bends witPts} bends) exists") :: fails
           else
             -- lower side: only compared with the oracle's (unverified) optimum
             let witCostLo := polylineLenLo sqrtBits (witPts.map fun p => (p.x, p.y)) + penalty * (bends witPts : Nat)
             if implCostHi < witCostLo - tol then
+              -- a route cheaper than the oracle optimum that provably enters a shape is the cut-through of the
+              -- naive visibility test (same finding as "shorter-than-optimum" at penalty 0): rigorous SPECFAIL
+              let hit := (legs rt).findSome? fun l => firstHit tol [] shapes 0 l
+              match hit with
+              | some i =>
+                fails := (1, .specfail s!"shorter-than-optimum conn {id} (penalty {dec penalty}): route cost ≤ {dec implCostHi} is below the oracle optimum ≥ {dec witCostLo} and the route enters the interior of shape {i+1} (proven checker)") :: fails
+              | none =>
               fails := (22, .diverge s!"conn {id} (penalty {dec penalty}): route cost ≤ {dec implCostHi} is below the oracle optimum ≥ {dec witCostLo} (oracle not optimal, or route leaves the spec graph)") :: fails
   match fails.foldl (fun acc f => match acc with
       | none => some f
